@@ -230,7 +230,15 @@ def run_components(case):
 
 
 def spaces(tier):
-    out = [components_space(k) for k in (2, 3, 4)]
+    from mc.lib import api
+    cc_ok = (api.available(fit_mod, 'get_connected_components',
+                           ('head_mapping',))
+             and api.available(fit_mod, 'build_head_mapping', ('series',)))
+    gs_ok = api.available(fit_mod, 'get_series_time_offsets',
+                          ('series_list', 'head_step'))
+    out = [components_space(k) for k in (2, 3, 4) if cc_ok]
+    if not gs_ok:
+        return out
     for size in ((2, 3, 4) if tier == 'quick' else (2, 3, 4, 5)):
         for menu in ('recession', 'rise'):
             n_menu = 12 if (tier == 'thorough' or size < 4) else 8
